@@ -204,7 +204,7 @@ func (w *World) Extend(parent *FBlock, gasLim uint64, cands []ATx, credits [nAcc
 	var inc []ATx
 	for _, t := range cands {
 		a := &st[t.S]
-		if t.Kind != 0 || uint64(t.N) != a.Nonce || t.Cost() > a.Balance || t.G > gasLim || t.G < 21000 {
+		if t.Kind != 0 || uint64(t.N) != a.Nonce || t.Cost() > a.Balance || t.G > gasLim || t.G < intrinsicGas {
 			continue
 		}
 		a.Nonce++
